@@ -200,7 +200,8 @@ def _run(V_, work, tier):
         raise MachineryError("Schema law violated inside the specification:\n" + res.raw[-2500:])
     if len(model) != len(schemas) * len(VALUES):
         raise MachineryError("Schema produced %d of %d verdicts" % (len(model), len(schemas) * len(VALUES)))
-    drv = [{"id": i, "seq": ["(set 'vv %s)" % rs(sc)] + ["(s:validate vv %s)" % rv(v) for v in VALUES], "cfg": {"nocount": True}} for i, sc in enumerate(schemas)]
+    # (every value is validated a second time after all the others: a verdict is a function of schema and value)
+    drv = [{"id": i, "seq": ["(set 'vv %s)" % rs(sc)] + ["(s:validate vv %s)" % rv(v) for v in VALUES] + ["(s:validate vv %s)" % rv(v) for v in VALUES], "cfg": {"nocount": True}} for i, sc in enumerate(schemas)]
     real = {r["id"]: r["runs"][0]["evals"] for r in driver_json(binary, ["run"], drv, timeout=3300)}
     nbad = 0
     for i, sc in enumerate(schemas):
@@ -228,6 +229,8 @@ def _run(V_, work, tier):
             ev = evs[j + 1]
             got = classify(ev)
             want = model[(i, j + 1)]["verdict"]
+            if len(evs) > len(VALUES) + j + 1 and classify(evs[len(VALUES) + j + 1]) != got:
+                V_.add(None, "the same validation gives two answers: (s:validate %s %s) gives %s the first time and %s the second" % (text_, rv(v), got, classify(evs[len(VALUES) + j + 1])), {"schema": text_, "value": rv(v)})
             if ev["v"].get("panic"):
                 V_.add(None, "validation panicked: %s on %s" % (text_, rv(v)), {"schema": text_, "value": rv(v)})
             elif got != want:
